@@ -5,20 +5,20 @@ def queries():
     qs = []
     for cap in range(0, 6):
         for h in (3, 4, 5, 6):
-            quick = (h == 3) or (h == 4 and cap in (1, 3))
+            quick = (h == 3 and cap in (0, 1, 2, 3, 5))
             qs.append(Query('rb_cap%d_h%d' % (cap, h), SRC, 'h_ringbuffer',
                             'RingBuffer<Tracked>(max_size=%d), %d symbolic operations out of 15 kinds (push/emplace/pop both ends, clear, copy/move construct, copy/move assign from a buffer of max_size 2, deallocate+allocate, self-assign), all 8-bit values' % (cap, h),
-                            defs=['CAP=%d' % cap, 'H=%d' % h], tiers=('quick', 'thorough') if quick else ('thorough',), timeout=900 if quick else 3600, weight=(cap + 1) * h, unwind=3))
+                            defs=['CAP=%d' % cap, 'H=%d' % h], ll2c=['--alloc-cap', '16'], tiers=('quick', 'thorough') if quick else ('thorough',), timeout=900 if quick else 3600, weight=(cap + 1) * h, unwind=3))
         qs.append(Query('rb_own_cap%d_h3' % cap, SRC, 'h_ringbuffer',
                         'heap-owning element type, max_size=%d, 3 symbolic operations, with CBMC memory-leak / double-free / use-after-free checks' % cap,
-                        defs=['CAP=%d' % cap, 'H=3', 'OWN'], cbmc=['--memory-leak-check'], tiers=('quick', 'thorough') if cap in (2,) else ('thorough',), timeout=1800, weight=20, unwind=3))
+                        defs=['CAP=%d' % cap, 'H=3', 'OWN'], ll2c=['--alloc-cap', '128'], cbmc=['--memory-leak-check'], tiers=('quick', 'thorough') if cap in (2,) else ('thorough',), timeout=1800, weight=20, unwind=3))
     for mode in ('Normal', 'NoInitButDestroy', 'NoInitNoDestroy'):
         for h in (3, 5):
             qs.append(Query('sv_%s_h%d' % (mode, h), SRC, 'h_simplevector',
                             'SimpleVector<Tracked, %s>, sizes 0..3, %d symbolic operations (resize, move construct/assign, swap, destroy, fill, self-move)' % (mode, h),
-                            defs=['SVMODE=' + mode, 'H=%d' % h], tiers=('quick', 'thorough') if h == 3 else ('thorough',), timeout=1800, weight=h * 3, unwind=3))
+                            defs=['SVMODE=' + mode, 'H=%d' % h], ll2c=['--alloc-cap', '32'], tiers=('quick', 'thorough') if h == 3 else ('thorough',), timeout=1800, weight=h * 3, unwind=3))
     qs.append(Query('sv_own_Normal_h3', SRC, 'h_simplevector', 'SimpleVector, heap-owning element type, 3 symbolic operations, CBMC leak/double-free checks',
-                    defs=['SVMODE=Normal', 'H=3', 'OWN'], cbmc=['--memory-leak-check'], tiers=('thorough',), timeout=1800, unwind=3))
+                    defs=['SVMODE=Normal', 'H=3', 'OWN'], ll2c=['--alloc-cap', '128'], cbmc=['--memory-leak-check'], tiers=('thorough',), timeout=1800, unwind=3))
     return qs
 
 ASSUMPTIONS = ['operations respect the documented preconditions: push only while size() < max_size(), pop/front/back only when non-empty',
